@@ -1,12 +1,14 @@
 /-
   C05 — regenerated obligations for tarfs.go (`harness/extract/tarfsfacts.go`): the field mappings that
-  `Model/TarFS.lean` assumes, compared with the ones the extractor reads off the source on every run.  A module of
-  its own, so that a change of tarfs.go turns these obligations red without hiding the general theorems of
+  `Model/TarFS.lean` assumes, compared with the ones the extractor reads off the source on every run.  Modules of
+  their own (this one: the writer; GenTarFSReader, GenTarFSTarMode), so that a change of tarfs.go turns these obligations red without hiding the general theorems of
   `Properties/C05.lean`.
 
   Compared as sets of (field, source expression) pairs (the order of the fields in a composite literal does not
-  matter), plus the statements around the literal (where `typ`, `h` and `info` come from; no assignment to the
-  header after the literal; the calls).  The reading of each source expression is the model's:
+  matter; the extractor first gives receiver, node parameter and the locals with a role their canonical names `fs`,
+  `n`, `hdr`, `h`, `info`, `f`, `typ`, and replaces a once-defined local by its definition, so renaming or hoisting
+  changes nothing), plus what happens around the literal: the calls that involve the archive/tar writer, that the
+  header is not touched after the literal, the rule that picks `typ`, where `h` and `info` come from.  The reading of each source expression is the model's:
     "n.Name", "n.UID", "n.GID", "n.MTime", "n.Xattrs", "n.Target"  the node's field, unchanged
     "int64(n.Mode)"      `rawMode`: the 32 `os.FileMode` bits, zero-extended (NOT `tarMode(n.Mode)`)
     "int64(n.Size)", "int64(n.Major)", "int64(n.Minor)"            the same 64-bit pattern
@@ -18,16 +20,15 @@
     "h.Linkname", "h.Uid", "h.Gid", "h.Xattrs", "uint64(h.Devmajor)", "uint64(h.Devminor)"   the header's field
 -/
 import Desync.Generated.Facts
-import Desync.Model.TarFS
 
 namespace Desync.C05
 open Desync
 
 /-- the same pairs, in any order -/
-def samePairs (a b : List (String × String)) : Bool :=
+private def samePairs (a b : List (String × String)) : Bool :=
   a.length == b.length && a.all (b.contains ·) && b.all (a.contains ·)
 
-def hdrCommon : List (String × String) :=
+private def hdrCommon : List (String × String) :=
   [("Name", "n.Name"), ("Uid", "n.UID"), ("Gid", "n.GID"), ("Mode", "int64(n.Mode)"), ("ModTime", "n.MTime"),
    ("Xattrs", "n.Xattrs")]
 
@@ -44,38 +45,14 @@ theorem gen_tarfs_writer :
       (("Typeflag", "gnutar.TypeSymlink") :: ("Linkname", "n.Target") :: ("Format", "fs.format") :: hdrCommon) = true ∧
     samePairs Gen.tarfsCreateDeviceHdr
       (("Typeflag", "typ") :: ("Devmajor", "int64(n.Major)") :: ("Devminor", "int64(n.Minor)") :: hdrCommon) = true ∧
-    Gen.tarfsCreateDirBody = ["hdr:=&gnutar.Header{…}", "return fs.w.WriteHeader(hdr)"] ∧
-    Gen.tarfsCreateFileBody = ["hdr:=&gnutar.Header{…}", "err:=fs.w.WriteHeader(hdr)", "if err!=nil: return err",
-      "_,err:=io.Copy(fs.w,n.Data)", "return err"] ∧
-    Gen.tarfsCreateSymlinkBody = ["hdr:=&gnutar.Header{…}", "return fs.w.WriteHeader(hdr)"] ∧
-    Gen.tarfsCreateDeviceBody = ["var typ byte=gnutar.TypeBlock", "if n.Mode&os.ModeCharDevice!=0: typ=gnutar.TypeChar",
-      "hdr:=&gnutar.Header{…}", "return fs.w.WriteHeader(hdr)"] ∧
-    Gen.tarfsNewTarWriter = [("", "gnutar.NewWriter(w)"), ("", "gnutar.FormatGNU")] := by
-  decide
-
-/-- `TarReader.Next` hands out the pending root or builds the `File` that `TarFS.readerFile` builds from the header
-    `fs.r.Next()` returned (an error of that call is passed on); `NewTarReader` prepares the root `TarFS.rootFile` -/
-theorem gen_tarfs_reader :
-    (Gen.site_tarfs_ReaderNext_found && Gen.site_tarfs_NewTarReader_found) = true ∧
-    samePairs Gen.tarfsReaderNextFile
-      [("Name", "info.Name()"), ("Path", "path.Clean(h.Name)"), ("Mode", "info.Mode()"),
-       ("ModTime", "info.ModTime()"), ("Size", "uint64(info.Size())"), ("LinkTarget", "h.Linkname"),
-       ("Uid", "h.Uid"), ("Gid", "h.Gid"), ("Xattrs", "h.Xattrs"), ("DevMajor", "uint64(h.Devmajor)"),
-       ("DevMinor", "uint64(h.Devminor)"), ("Data", "ioutil.NopCloser(fs.r)")] = true ∧
-    Gen.tarfsReaderNextBody = ["if fs.root!=nil: f=fs.root", "if fs.root!=nil: fs.root=nil",
-      "if fs.root!=nil: return f,nil", "h,err:=fs.r.Next()", "if err!=nil: return nil,err", "info:=h.FileInfo()",
-      "f=&File{…}", "return f,nil"] ∧
-    samePairs Gen.tarfsRootFile [("Name", "\".\""), ("Path", "\".\""), ("Mode", "os.ModeDir|0755")] = true ∧
-    Gen.tarfsNewTarReaderBody = ["var root *File=", "if opts.AddRoot: root=&File{…}", "return &TarReader{…}"] := by
-  decide
-
-/-- the helper `tarMode` is what `TarFS.tarMode` says, and no method of `TarWriter` calls it (the known finding
-    `gnutar.header-mode.filemode-bits` stands; `gnutar_roundtrip_with_tarMode` is about a writer that would) -/
-theorem gen_tarfs_tarMode_unused :
-    Gen.site_tarfs_tarMode_found = true ∧
-    Gen.tarfsTarModeBody = ["return int64(FilemodeToStatMode(m)&07777)"] ∧
-    (Gen.tarfsTarModeCallers.all fun c =>
-      !["TarWriter.CreateDir", "TarWriter.CreateFile", "TarWriter.CreateSymlink", "TarWriter.CreateDevice"].contains c) = true := by
+    Gen.tarfsCreateDirCalls = ["fs.w.WriteHeader(hdr)"] ∧
+    Gen.tarfsCreateFileCalls = ["fs.w.WriteHeader(hdr)", "io.Copy(fs.w,n.Data)"] ∧
+    Gen.tarfsCreateSymlinkCalls = ["fs.w.WriteHeader(hdr)"] ∧
+    Gen.tarfsCreateDeviceCalls = ["fs.w.WriteHeader(hdr)"] ∧
+    (Gen.tarfsCreateDirHdrTouched || Gen.tarfsCreateFileHdrTouched || Gen.tarfsCreateSymlinkHdrTouched ||
+      Gen.tarfsCreateDeviceHdrTouched) = false ∧
+    Gen.tarfsDeviceTypRule = ["typ=gnutar.TypeBlock", "if n.Mode&os.ModeCharDevice!=0: typ=gnutar.TypeChar"] ∧
+    Gen.tarfsNewTarWriter = [("w", "gnutar.NewWriter(w)"), ("format", "gnutar.FormatGNU")] := by
   decide
 
 end Desync.C05
